@@ -2,9 +2,11 @@
 pub mod engine;
 pub mod util;
 pub mod model;
+pub mod boxset;
 pub mod codec;
 pub mod gen;
 pub mod containers;
+pub mod sources;
 pub mod vpltree;
 
 pub use engine::{guard, Check, Fail, Obs, Tier};
